@@ -826,10 +826,8 @@ func c08Step(c *Ctx) {
 	var stepCall *ssa.Call
 	var rec ssa.Instruction
 	var recArg ssa.Value
+	stepCall, _, _ = walkStepSite(c, walk, step)
 	ssau.Instrs(walk, func(in ssa.Instruction) {
-		if cl, ok := in.(*ssa.Call); ok && cl.Common().StaticCallee() == step {
-			stepCall = cl
-		}
 		if ci, ok := in.(ssa.CallInstruction); ok {
 			if sc := ci.Common().StaticCallee(); sc != nil && sc.Blocks != nil && prog.PkgOf(sc) == "core" {
 				if e, _ := appendsToStrides(sc); e != nil {
@@ -858,9 +856,14 @@ func c08Step(c *Ctx) {
 		if ex, isEx := d.(*ssa.Extract); isEx && ex.Tuple == ssa.Value(stepCall) && ex.Index == 0 {
 			ok = true
 		}
+		if d == ssa.Value(stepCall) {
+			ok = true // the step helper's result (walkStepSite)
+		}
 	}
 	why := "Walked.add is not given the stride returned by Step"
-	if ok {
+	if ok && rec.Block() == stepCall.Block() && flow.Index(stepCall) < flow.Index(rec) {
+		// recorded in the very block that takes the step
+	} else if ok {
 		L := flow.InnermostLoop(flow.Loops(walk), stepCall.Block())
 		after := flow.ReachableFrom(stepCall.Block(), map[*ssa.BasicBlock]bool{rec.Block(): true})
 		for b := range after {
